@@ -1128,6 +1128,7 @@ def _run(tier):
         timed("tie_path", drv.tie_path, chk, r, 200 if q else 2000)
         timed("tie_executables", drv.tie_executables, chk, r, 250 if q else 3000)
         timed("tie_locations", drv.tie_locations, chk, r, cases, 2500 if q else 30000, 400 if q else 5000)
+        timed("tie_module_ir", drv.tie_module_ir, chk, r, cases, 400 if q else 4000, 3000 if q else 30000)
         chk.extra["traces_validated_against_impl"] = sum(v["compared"] for v in chk.extra.get("tie", {}).values())
     timed("cli", explore_cli, chk, common.rng("C16-cli"), 7 if tier == "quick" else 150,
           [c for c in cases if c["kind"].split("/")[0] in ("boundary", "sem", "grammar", "mutate", "imports", "corpus", "soup")])
